@@ -617,13 +617,32 @@ def sources(an, op, extra_through=(), limit=400):
                 out.add(('upvar', nm + ''.join(fl)))
                 continue
         flds = [(o_, f) for o_, f in p.fields() if o_]
-        key = (p.local,)
+        # field-sensitive step: `_x.1` where `_x = (a, b)` / `_x = S { f: a, g: b }` follows only that operand
+        sel = None
+        if p.proj and p.proj[0].startswith('.') :
+            sel = p.proj[0][1:]
+        elif len(p.proj) >= 2 and p.proj[0].startswith('@') and p.proj[1].startswith('.'):
+            sel = p.proj[1][1:]
+        key = (p.local, sel)
         if flds:
             out.add(('field', '%s.%s' % (flds[-1][0], flds[-1][1])))
         if key in seen:
             continue
         seen.add(key)
         l = p.local
+        if sel is not None:
+            ds = an.defs(l)
+            if ds and all(d[0] == 'stmt' and d[3].rv.kind == 'agg' and d[3].rv.j['ak'] in ('tuple', 'adt') for d in ds):
+                done = True
+                for d in ds:
+                    rv = d[3].rv
+                    names = [str(i) for i in range(len(rv.ops))] if rv.j['ak'] == 'tuple' else rv.j.get('fields', [])
+                    if sel in names and len(names) == len(rv.ops):
+                        work.append(rv.ops[names.index(sel)])
+                    else:
+                        done = False
+                if done:
+                    continue
         if 1 <= l <= an.b.arg_count and not (an.b.kind == 'Closure' and l == 1):
             out.add(('arg', an.local_name(l) or 'arg%d' % l))
         for d in an.defs(l):
